@@ -1,4 +1,5 @@
 import XvcRepo.Cache
+import XvcRepo.NoLoss
 import XvcRepo.Storage
 /-!
   # C05 — Removal never deletes content that other tracked paths still need
@@ -269,6 +270,30 @@ theorem C05_untrack_missing_witness :
     (s1.untrack [⟨0, 1⟩]).1.recs 1 = none := by
   decide
 
+/-- **C05_untrack_keeps_workspace_bytes**: after `untrack` (any target list) everything that could be read
+    at a workspace path before — targets and all other paths, links and files — can still be read at that
+    path, byte for byte.  Hypotheses (`LinkOkAt` at the states where a target is re-materialised: its
+    symlink points at its current version, a hard-link entry carries its object's bytes; and no symlink
+    that remains points at an object about to be deleted) say that the workspace links are the ones xvc
+    made; they are stated at their points of use, their invariance along histories is not proved. -/
+theorem C05_untrack_keeps_workspace_bytes (s : St) (ps : List Path)
+    (h1 : forEachP St.rematOne LinkOkAt s (s.targetEnts ps))
+    (h2 : ∀ a ∈ s.untrackDeletable (s.targetEnts ps), ∀ q, (s.rematerialise (s.targetEnts ps)).1.ws q ≠ some (.sym a))
+    (q : Path) (b : Bytes) (n : Nat) (hr : s.readThrough q = some (b, n)) :
+    ∃ n', (s.untrack ps).1.readThrough q = some (b, n') :=
+  untrack_wsKeep s ps h1 h2 q b n hr
+
+/-- non-vacuity: two symlinked files with the same content and a third plain one; untracking the first
+    keeps all three readable with their bytes, and the first is a regular file afterwards -/
+theorem C05_untrack_keeps_workspace_witness :
+    let s0 := (((St.init.userWrite ⟨0, 1⟩ [104]).userWrite ⟨1, 1⟩ [104]).userWrite ⟨2, 1⟩ [105])
+    let s := (s0.track {} { method := some .symlink } [⟨0, 1⟩, ⟨1, 1⟩]).1
+    let s' := (s.untrack [⟨0, 1⟩]).1
+    s.ws ⟨0, 1⟩ = some (.sym ⟨⟨0, [104]⟩, 1⟩) ∧
+    (s'.readThrough ⟨0, 1⟩).map (·.1) = some [104] ∧ (s'.readThrough ⟨1, 1⟩).map (·.1) = some [104] ∧
+    (s'.readThrough ⟨2, 1⟩).map (·.1) = some [105] ∧ (∃ st, s'.ws ⟨0, 1⟩ = some (.file [104] true st none)) := by
+  refine ⟨by decide, by decide, by decide, by decide, ⟨4, by decide⟩⟩
+
 example : ∃ s : St, ∃ a o, s.cache a = some o ∧ (s.remove [⟨0, 1⟩] .current false).1.cache a = none :=
   ⟨((St.init.userWrite ⟨0, 1⟩ [104]).track {} {} [⟨0, 1⟩]).1, ⟨⟨0, [104]⟩, 1⟩, ⟨[104], true, 1⟩, by decide, by decide⟩
 
@@ -296,6 +321,10 @@ open Repo in
 #print axioms C05_untrack_shared_hardlink_becomes_file
 open Repo in
 #print axioms C05_untrack_hardlink_becomes_file
+open Repo in
+#print axioms C05_untrack_keeps_workspace_bytes
+open Repo in
+#print axioms C05_untrack_keeps_workspace_witness
 open Repo in
 #print axioms C05_untrack_missing_becomes_file
 open Repo in
